@@ -126,36 +126,12 @@ def run(chk, w):
     # ---- CONN
     chk.rule("C15-CONN", "a message whose destination is a board's stored node address is sent only behind a test of that board's connected flag")
     nconn = 0
-    for f in P.repo_functions():
-        if f.name in S.constructors:
-            continue
-        for c in f.calls():
-            if not c.callee or c.callee not in P.functions or not P.functions[c.callee].blocks:
-                continue
-            if not (c.callee in S.constructors or rules.call_reaches(P, c, set(S.constructors))):
-                continue
-            for j in range(len(c.args)):
-                if c.args[j].get("k") != "inst":
-                    continue
-                src = _byval_source_field(P, f, c.args[j])
-                if src is None or src[0] != NODE_ADDR:
-                    continue
-                nconn += 1
-                bkey = src[1]
-                guarded = False
-                for (gd, truth) in rules.branch_conditions(f, c):
-                    if not truth:
-                        continue
-                    for leaf in c19.leaf_values(f, gd["cond"]):
-                        li = f.resolve(leaf)
-                        if li is not None and li.op == "load" and rules.field_path_of_ptr(P, f, li["ptr"]) == CONNECTED and _board_key(f, li["ptr"]) == bkey:
-                            guarded = True
-                    # flag copied into a local first
-                    srcl = rules.load_source(f, gd["cond"])
-                if guarded:
-                    chk.ok("C15-CONN", 1, {"call": c.callee, "at": c.loc()})
-                else:
-                    chk.violation("C15-CONN", f.name, c.callee, c.loc(), "%s is sent to a board's stored address without a dominating test of that board's connected flag" % c.callee)
+    for (f, c, guarded) in board_addressed_sends(P, S):
+        nconn += 1
+        if guarded:
+            chk.ok("C15-CONN", 1, {"call": c.callee, "at": c.loc()})
+        else:
+            chk.violation("C15-CONN", f.name, c.callee, c.loc(), "%s is sent to a board's stored address without a dominating test of that board's connected flag" % c.callee)
     chk.floor("board_addressed_sends", nconn, 15)
 
     # ---- RESTART
@@ -195,6 +171,37 @@ def run(chk, w):
             chk.ok("C15-RESTART", 1, {"query": n, "can_request_restart": True})
         else:
             chk.violation("C15-RESTART", n, "restart-signal", "%s:%d" % (f.relfile, f.line), "the node-table query never reports that the table changed")
+
+
+def board_addressed_sends(P, S, fns=None):
+    """(function, call, guarded) for every call that reaches a transmit and passes a board's stored node address; guarded = a test of that
+    board's connected flag holds on every path to the call"""
+    out = []
+    for f in (fns if fns is not None else P.repo_functions()):
+        if f.name in S.constructors:
+            continue
+        for c in f.calls():
+            if not c.callee or c.callee not in P.functions or not P.functions[c.callee].blocks:
+                continue
+            if not (c.callee in S.constructors or rules.call_reaches(P, c, set(S.constructors))):
+                continue
+            for j in range(len(c.args)):
+                if c.args[j].get("k") != "inst":
+                    continue
+                src = _byval_source_field(P, f, c.args[j])
+                if src is None or src[0] != NODE_ADDR:
+                    continue
+                bkey = src[1]
+                guarded = False
+                for (gd, truth) in rules.branch_conditions(f, c):
+                    if not truth:
+                        continue
+                    for leaf in c19.leaf_values(f, gd["cond"]):
+                        li = f.resolve(leaf)
+                        if li is not None and li.op == "load" and rules.field_path_of_ptr(P, f, li["ptr"]) == CONNECTED and _board_key(f, li["ptr"]) == bkey:
+                            guarded = True
+                out.append((f, c, guarded))
+    return out
 
 
 def _board_key_of_field(P, f, ptr, field):
